@@ -15,6 +15,29 @@ func CompareAny(a, b any) int {
 	bv := reflect.ValueOf(b)
 	at := av.Kind()
 	bt := bv.Kind()
+	/* Numbers of the same family but different widths are the same type for
+	 * sorting purposes. They occur naturally, e.g. msgpack stores integers in
+	 * the smallest width that fits, so one property holds int8, uint8 and
+	 * int16 values across points, and they must be ordered by value. */
+	aInt, aUint, bInt, bUint := isIntKind(at), isUintKind(at), isIntKind(bt), isUintKind(bt)
+	switch {
+	case aInt && bInt:
+		return cmp.Compare(av.Int(), bv.Int())
+	case aUint && bUint:
+		return cmp.Compare(av.Uint(), bv.Uint())
+	case aInt && bUint:
+		if av.Int() < 0 {
+			return -1
+		}
+		return cmp.Compare(uint64(av.Int()), bv.Uint())
+	case aUint && bInt:
+		if bv.Int() < 0 {
+			return 1
+		}
+		return cmp.Compare(av.Uint(), uint64(bv.Int()))
+	case isFloatKind(at) && isFloatKind(bt):
+		return cmp.Compare(av.Float(), bv.Float())
+	}
 	if at != bt {
 		// Different types, compare type kinds directly so same types are grouped up.
 		return cmp.Compare(at, bt)
@@ -32,6 +55,18 @@ func CompareAny(a, b any) int {
 	}
 	// We don't know how to compare this type, so we just say they are equal.
 	return 0
+}
+
+func isIntKind(k reflect.Kind) bool {
+	return k >= reflect.Int && k <= reflect.Int64
+}
+
+func isUintKind(k reflect.Kind) bool {
+	return k >= reflect.Uint && k <= reflect.Uint64
+}
+
+func isFloatKind(k reflect.Kind) bool {
+	return k == reflect.Float32 || k == reflect.Float64
 }
 
 // Accesses a nested property in a map of the form path "a.b.c".
